@@ -982,6 +982,34 @@ def alias_case(lname, how):
     return Case(name, body, goals, family="alias/" + how, params=dict(layout=lname, how=how), **BIG)
 
 
+def mixed_dtype_case(lname):
+    """from_coordinates with an INTEGER first variable (an index / flag column built with arange) followed by real-valued
+    variables: the table is real-valued (type promotion as in torch.cat), the real columns come back unchanged"""
+    layout = LAYOUTS[lname]
+    name = "roundtrip/n/%s/integer_first_variable" % lname
+
+    def body(env):
+        ca = mk_coords(env, "a", layout, (2,))
+        # real cells that are NOT integers, so that a cast to the first variable's dtype would show
+        for t in ca.values():
+            for c in SH.elems(env, t):
+                env.assume(env.L.And(env.L.gt(c, 0), env.L.lt(c, 1)))
+        idx = torch.arange(2).reshape(2, 1)
+        p = Points.from_coordinates({"k": idx, **ca})
+        co = p.coordinates
+        return dict(ca=ca, back={n: co[n] for n, _ in layout}, k=co["k"], floating=bool(p._t.dtype.is_floating_point),
+                    space=[[n, d] for n, d in p.space.items()])
+
+    def goals(o, L, env):
+        yield "space", o["space"] == [["k", 1]] + [[n, d] for n, d in layout]
+        yield "table_is_real_valued", o["floating"]
+        yield "index_column", L.And(L.eq(arr(o["k"]).reshape(-1)[0], 0), L.eq(arr(o["k"]).reshape(-1)[1], 1))
+        for n, _ in layout:
+            yield "real_column_unchanged[%s]" % n, L.And([L.eq(a, b) for a, b in zip(arr(o["back"][n]).reshape(-1), arr(o["ca"][n]).reshape(-1))])
+
+    return Case(name, body, goals, family="roundtrip/mixed_dtype", params=dict(layout=lname), **BIG)
+
+
 # --------------------------------------------------------------------------
 
 
@@ -1062,6 +1090,7 @@ def cases(tier):
                 if l == "x1" and "permuted" in how:
                     continue
                 cs.append(eq_case(b, l, how))
+    cs.append(mixed_dtype_case("x2t1u1"))
     # ---- views that could drift apart (coordinates vs tensor, repeat(1) vs its source)
     for l in (["x2t1u1", "t1x2"] if thorough else ["x2t1u1"]):
         for how in ("read_to_assign_read", "repeat_ones_assign", "repeat_ones_assign_ab"):
